@@ -461,6 +461,8 @@ pub fn utils(out: &mut Out, seed: u64, thorough: bool) {
                     let mut b = vec![0x55u8; gl + 2];
                     let gen = cu("utils", AssertUnwindSafe(|| GseFirstFragPacket::new(gl as u16, fragid, tl2, ptype, label, &pdu).generate(&mut b)));
                     if gen.is_ok() {
+                        // what the decapsulator accepts, the utils struct must read back
+                        utils_roundtrip(out, &b, "consistent_first");
                         rx.ev_reset(out);
                         rx.note_id(fragid);
                         let _ = rx.ev_decap(out, &b, vec![("utl", "true".to_string())]);
@@ -471,6 +473,7 @@ pub fn utils(out: &mut Out, seed: u64, thorough: bool) {
                         let gle = 5 + rest;
                         let mut e = vec![0x55u8; gle + 2];
                         if cu("utils", AssertUnwindSafe(|| GseEndFragPacket::new(gle as u16, fragid, &tail, crc).generate(&mut e))).is_ok() {
+                            utils_roundtrip(out, &e, "consistent_end");
                             let o = rx.ev_decap(out, &e, vec![("utl", "true".to_string())]);
                             if let Some(bx) = o.returned {
                                 rx.ev_provision_buf(out, bx);
@@ -526,7 +529,8 @@ pub fn memops(out: &mut Out, seed: u64, thorough: bool, scn: Option<&str>) {
                 // mostly 1..4 slots; one run in eight with a slot count around the size of the fragment-id space
                 (match si % 32 { 7 => 254, 15 => 255, 23 => 256, 31 => 300, k => 1 + k % 4 }, None)
             };
-        let pdu_size = 16;
+        // configured PDU size: small as a rule; a few runs around 65536 (a size kept in 16 bits would wrap)
+        let pdu_size = if script.is_none() { match si % 64 { 5 => 65535, 21 => 65536, 37 => 70000, 53 => 131072 + 20, _ => 16 } } else { 16 };
         // measured capacity: provisions accepted by a fresh scratch memory
         let mut scratch = SimpleGseMemory::new(slots, pdu_size, 0, 0);
         let mut cap = 0;
@@ -583,6 +587,10 @@ pub fn memops(out: &mut Out, seed: u64, thorough: bool, scn: Option<&str>) {
                         // lengths at and just above multiples of 64 KiB (unique per scenario)
                         big_count += 1;
                         pattern([65536usize, 65537, 65536 + pdu_size - 1, 131072, 131073][arg % 5] + 8 * big_count)
+                    } else if op == "provision_small" && pdu_size > 60000 {
+                        // below a large configured size: just below, far below, around what a 16-bit copy of the size would be
+                        let c = [pdu_size - 1, pdu_size - 1000, 65535, (pdu_size & 0xFFFF) + 1, pdu_size & 0xFFFF, 100, pdu_size / 2];
+                        pattern(c[k % c.len()].saturating_sub(k / c.len()).clamp(1, pdu_size - 1))
                     } else if op == "provision_small" {
                         pattern(1 + (k % (pdu_size - 1)))
                     } else {
